@@ -528,7 +528,18 @@ impl ObjectReceiver {
                     .map(|md5| writer.check_md5(md5))
                     .unwrap_or(true);
 
-                if md5_valid {
+                if md5_valid && !writer.check_content_length() {
+                    log::error!(
+                        "Content length does not match the announced Content-Length {:?} {:?}",
+                        self.content_length,
+                        self.content_location
+                    );
+                    self.error(
+                        "Content length does not match the announced Content-Length",
+                        now,
+                        false,
+                    );
+                } else if md5_valid {
                     self.complete(now);
                 } else {
                     let md5 = writer.get_md5().map(|f| f.to_owned());
